@@ -447,6 +447,14 @@ class Interpreter(BaseInterpreter[TContext, TEvent]):
                 was_self_raised = id(event) in self._self_raised
                 self._self_raised.discard(id(event))
 
+                # 🛑 `stop()` sets the status first and cancels this task only
+                #    after the child actors have been stopped (which awaits).
+                #    A loop already woken for a queued event would otherwise
+                #    process it on a stopped interpreter.
+                if self.status != "running":
+                    self._event_queue.task_done()
+                    break
+
                 if self._raise_depth > limit:
                     logger.error(
                         "🛑 Exceeded %d chained self-raised events on '%s'. "
